@@ -8,6 +8,7 @@ import (
 	"testing"
 
 	"github.com/AdguardTeam/AdGuardHome/internal/dhcpsvc"
+	"github.com/insomniacslk/dhcp/dhcpv4"
 )
 
 func replayServer(t *testing.T) *v4Server {
@@ -91,5 +92,63 @@ func TestReplayC10TwoConflictingDynamic(t *testing.T) {
 	}
 	if n != 1 {
 		t.Errorf("GOVC-REPRODUCED: %d leases hold 192.168.10.101 after the reservation was added", n)
+	}
+}
+
+// TestReplayC10Decline: after a DECLINE the client's replacement lease must be in the table exactly once, and the lease
+// database must be written after the table changed.
+func TestReplayC10Decline(t *testing.T) {
+	s := replayServer(t)
+	s.conf.ICMPTimeout = 0
+	var old *dhcpsvc.Lease
+	storeSawOld := []bool{}
+	s.conf.notify = func(flags uint32) {
+		if flags == LeaseChangedDBStore {
+			saw := false
+			for _, l := range s.leases {
+				if l == old {
+					saw = true
+				}
+			}
+			storeSawOld = append(storeSawOld, saw)
+		}
+	}
+	mac := net.HardwareAddr{1, 2, 3, 4, 5, 6}
+	old = &dhcpsvc.Lease{IP: netip.MustParseAddr("192.168.10.100"), HWAddr: mac, Hostname: "cli"}
+	s.leasesLock.Lock()
+	err := s.addLease(old)
+	s.leasesLock.Unlock()
+	if err != nil {
+		t.Fatal(err)
+	}
+	req, err := dhcpv4.NewDiscovery(mac)
+	if err != nil {
+		t.Fatal(err)
+	}
+	req.UpdateOption(dhcpv4.OptMessageType(dhcpv4.MessageTypeDecline))
+	req.UpdateOption(dhcpv4.OptRequestedIPAddress(net.IP{192, 168, 10, 100}))
+	resp, err := dhcpv4.NewReplyFromRequest(req)
+	if err != nil {
+		t.Fatal(err)
+	}
+	if err = s.handleDecline(req, resp); err != nil {
+		t.Fatalf("handleDecline: %v", err)
+	}
+	seen := map[*dhcpsvc.Lease]int{}
+	for _, l := range s.leases {
+		seen[l]++
+	}
+	for l, n := range seen {
+		if n > 1 {
+			t.Errorf("GOVC-REPRODUCED: after DECLINE the lease %s (%s) occurs %d times in the lease table (and in leases.json)", l.IP, l.HWAddr, n)
+		}
+	}
+	for _, saw := range storeSawOld {
+		if saw {
+			t.Errorf("GOVC-REPRODUCED: the database store was requested while the declined lease was still in the table (before the change)")
+		}
+	}
+	if len(storeSawOld) == 0 {
+		t.Errorf("GOVC-REPRODUCED: no database store was requested for the DECLINE")
 	}
 }
